@@ -464,7 +464,7 @@ def sym_entry(module, body, params):
 class Harness(object):
     def __init__(self, name, module, body, params=None, cfg=None, functions=(), bounds='', assumptions=(),
                  expect=(), max_paths=50000, wall_budget=600, nproc=None, max_replays=4, replay=True,
-                 expect_exhaustive=True):
+                 expect_exhaustive=True, home=None):
         self.name = name
         self.module = module
         self.body = body
@@ -480,6 +480,7 @@ class Harness(object):
         self.max_replays = max_replays
         self.replay = replay
         self.expect_exhaustive = expect_exhaustive
+        self.home = home
 
 
 def load_known():
@@ -509,6 +510,8 @@ def _run_one(pid, h, known):
            'reproduced': 0, 'spurious': 0, 'exhaustive': True, 'nontrivial': 0}
     mod = importlib.import_module(h.module)
     body = getattr(mod, h.body)
+    h.cfg.pid = pid
+    h.cfg.home = h.home or pid
     try:
         res = core.explore(('dfverif.harness', 'sym_entry', {'module': h.module, 'body': h.body, 'params': h.params}),
                            cfg=h.cfg, nproc=h.nproc, max_paths=h.max_paths, wall_budget=h.wall_budget)
